@@ -59,7 +59,6 @@ def run(ctx):
             "midT": ("MC_mid.cfg", "TRUE", "FALSE", None),
             "midF": ("MC_mid.cfg", "FALSE", "FALSE", None),
             "bigT": ("MC_big.cfg", "TRUE", None, None),
-            "bigF": ("MC_big.cfg", "FALSE", None, None),
             "fixF": ("MC_fix.cfg", "FALSE", None, None),
             "liveFix": ("MC_live.cfg", "TRUE", "TRUE", {"NAlerts": "3"}),
         })
